@@ -1,10 +1,19 @@
 #!/bin/sh
-# Runs every mutant of mutants/ (file name cNN_*.diff -> property CNN) through tools/selftest.py; appends to build/selftest.log
+# Runs every mutant of mutants/ (file name cNN_*.diff -> property CNN) and every seeded change of seeded/<dir>/patch.diff
+# through tools/selftest.py (quick tier against a scratch copy of /repo with the patch applied); log in build/selftest.log,
+# seeded results are also written back to seeded/<dir>/meta.json. tools/selftest_table.py turns both into the DESIGN table.
 cd /verif
 mkdir -p build
+: > build/selftest.log
 for f in mutants/*.diff; do
   id=$(basename $f | cut -c1-3 | tr c C)
   echo "=== $f -> $id" >> build/selftest.log
   python3 tools/selftest.py $f $id >> build/selftest.log 2>&1
+done
+for d in seeded/*/; do
+  name=$(basename $d)
+  id=$(echo $name | cut -c1-3)
+  echo "=== seeded/$name -> $id" >> build/selftest.log
+  python3 tools/intake_seeded.py $id --name $name --recheck-only >> build/selftest.log 2>&1
 done
 echo DONE >> build/selftest.log
